@@ -148,4 +148,11 @@ def pyXmlEscape (s : Str) : Str := Xml.escText s
 /-- `json.dumps(s, ensure_ascii=False)` of a `str` (the hand model's quoting, validated against the library by C10) -/
 def pyJsonDumps (s : Str) : Str := pyJsonQuote s
 
+/-- the fields of `UAEUInformation` (`display_name` / `description` are `UALocalizedText`) -/
+structure EUInfo where
+  namespace_uri : Str
+  unit_id : Int
+  display_name : LocText
+  description : LocText
+
 end Opcua
